@@ -65,6 +65,11 @@ def _spec(draw, tier):
             keep.append(a)
             seen.add(a["key"])
     spec["assignments"] = keep
+    for a in spec["assignments"]:
+        if a["key"] == "v":
+            # a trainable initial voltage pinned exactly on a rate singularity of HH (-40, -55): a guard written
+            # with a single `where` has a NaN gradient precisely there
+            a["init"] = [draw(st.one_of(st.sampled_from([-40.0, -55.0]), fl(-75.0, -50.0))) for _ in a["init"]]
     T = draw(st.integers(5, 20))
     spec["nsteps"] = T
     spec["stim_row"] = draw(st.integers(0, N - 1))
